@@ -218,6 +218,48 @@ Proof.
   intros x v Hx Hf. apply (proj1 (proj2 S1') x v Hx F Hf).
 Qed.
 
+(* a copied state carries the invariant *)
+Lemma copy_inv : forall c0 prot s, Inv c0 prot s -> Inv c0 prot (copy_state s).
+Proof.
+  intros c0 prot s (I1 & I2 & I3). split; [exact I1|]. split; [exact I2|].
+  intros x. unfold calls. simpl. split; auto.
+Qed.
+Lemma copy_strong : forall c0 prot s, Strong c0 prot s -> Strong c0 prot (copy_state s).
+Proof. intros c0 prot s H c Hc. simpl. apply H. assumption. Qed.
+
+(* C14 for objects produced by copying state: after any history h1 the state is copied; the copy is re-targeted
+   and read (h2, r) and behaves like a newly built object for the new cells; the original, read on (ho, ro),
+   behaves as if no copy had been taken *)
+Theorem copy_retarget_equiv_fresh : forall c0 c1 prot l, wf_strict C c0 prot -> wf_strict C c1 prot ->
+  survivors_stable C rk c0 c1 -> no_init_derived_state C prot l c0 c1 ->
+  forall F h1 h2 r ho ro, (forall x, In x (r :: ro :: h1 ++ h2 ++ ho) -> rk x < F) ->
+  exists s1, run C F (construct c0) h1 = Some s1 /\
+  (exists s2, run C F (retarget C l (copy_state s1)) h2 = Some s2 /\
+   exists s3, read C F s2 r = Some (val C c1 F r, s3) /\ (forall x, calls s3 x <= 1)) /\
+  (exists so, run C F s1 ho = Some so /\
+   exists so', read C F so ro = Some (val C c0 F ro, so') /\ (forall x, calls so' x <= 1)).
+Proof.
+  intros c0 c1 prot l Ws0 Ws1 Hsurv Hnid F h1 h2 r ho ro HF.
+  pose proof (wf_strict_wf c0 prot Ws0) as W0. pose proof (wf_strict_wf c1 prot Ws1) as W1.
+  destruct (run_sound c0 prot W0 F h1 (construct c0) (construct_inv c0 prot)) as (s1 & R1 & S1 & _ & T1).
+  { intros x Hx. apply HF. right. right. apply in_or_app. left; assumption. }
+  exists s1. split; [assumption|].
+  assert (St1 : Strong c0 prot s1) by (apply (T1 Ws0); intros c _; reflexivity).
+  split.
+  - destruct (retarget_inv c0 c1 prot l Hsurv Hnid (copy_state s1) (copy_inv c0 prot s1 S1)
+                (copy_strong c0 prot s1 St1)) as [S1' _].
+    destruct (run_sound c1 prot W1 F h2 (retarget C l (copy_state s1)) S1') as (s2 & R2 & S2 & _).
+    { intros x Hx. apply HF. right. right. apply in_or_app. right. apply in_or_app. left; assumption. }
+    exists s2. split; [assumption|].
+    destruct (read_sound c1 prot W1 F s2 r S2 (HF r (or_introl eq_refl))) as (s3 & R3 & S3 & _).
+    exists s3. split; [assumption|]. intros x; apply (proj2 (proj2 S3) x).
+  - destruct (run_sound c0 prot W0 F ho s1 S1) as (so & Ro & So & _).
+    { intros x Hx. apply HF. right. right. apply in_or_app. right. apply in_or_app. right; assumption. }
+    exists so. split; [assumption|].
+    destruct (read_sound c0 prot W0 F so ro So (HF ro (or_intror (or_introl eq_refl)))) as (so' & Ro' & So' & _).
+    exists so'. split; [assumption|]. intros x; apply (proj2 (proj2 So') x).
+Qed.
+
 Lemma own_complete_stable : forall c0 c1, own_dict_complete C -> survivors_stable C rk c0 c1.
 Proof. intros c0 c1 H x E. rewrite (H x) in E. discriminate. Qed.
 
